@@ -90,11 +90,11 @@ func freshPdata(v ssa.Value, depth int) bool {
 }
 
 func c15_1(c *core.Ctx, p *core.Prog) {
-	g := p.CHA()
+	// CHA in both tiers: its reach is a superset of VTA's, so the thorough tier never inspects less than the quick one
+	reach := repoReach(p, p.CHA(), producerEntries(p))
 	if c.Tier == "thorough" {
-		g = p.VTA()
+		c.Stats["C15.1 functions reachable under VTA (subset of the CHA reach that is inspected)"] = len(repoReach(p, p.VTA(), producerEntries(p)))
 	}
-	reach := repoReach(p, g, producerEntries(p))
 	if len(reach) < 100 {
 		c.Undecided("reach", "?", "", fmt.Sprintf("only %d repo functions reachable from the producer entry points", len(reach)))
 		return
